@@ -1,5 +1,7 @@
 (* C02 -- Snapshot fidelity: a snapshot truthfully describes the paused frame. *)
 From Deep Require Import Base Config ConfigProofs Collector CollectorProofs Frames.
+From DeepGen Require Import PRender PFrames.
+From Deep Require Import TieRender TieFrames.
 
 (* the stack frames are the real call stack, in order, one per frame, each carrying that frame's
    file, function, line and class of self *)
@@ -117,3 +119,14 @@ Proof.
   rewrite P. simpl. rewrite skipn_app, skipn_all, Nat.sub_diag. reflexivity.
 Qed.
 Print Assumptions C02_private_names.
+
+(* ---- tie by translation: var_modifiers and FrameCollector.parse_short_name as they are in /repo/src NOW *)
+Theorem C02_the_code_modifiers_are_the_model :
+  forall name, gen_var_modifiers name = modifier_words (modifier_of name).
+Proof. exact tie_var_modifiers. Qed.
+Print Assumptions C02_the_code_modifiers_are_the_model.
+
+Theorem C02_the_code_short_path_is_the_model :
+  forall ia f, gen_parse_short_name ia f = (Config.short_path (snd (ia f)) f, fst (ia f)).
+Proof. exact tie_parse_short_name. Qed.
+Print Assumptions C02_the_code_short_path_is_the_model.
